@@ -25,6 +25,8 @@ type Op struct {
 	Qx  int    `json:"qx,omitempty"`  // query point in half units (nn, knn)
 	Qy  int    `json:"qy,omitempty"`
 	Kn  int    `json:"kn,omitempty"` // k for knn
+	// F: fractional offsets added to x, y, w, h of Box (and to the query point) in float histories
+	F [4]float64 `json:"f,omitempty"`
 }
 
 // History is the pure-data case.
@@ -33,6 +35,8 @@ type History struct {
 	Max  int    `json:"max"`
 	Kind string `json:"kind"` // bounds (pointers) | point (values) | custom (comparable struct values)
 	Ops  []Op   `json:"ops"`
+	// Float: coordinates are not on the integer grid (Op.F carries the fractional parts)
+	Float bool `json:"float,omitempty"`
 }
 
 // custom comparable object
@@ -72,6 +76,7 @@ func GenHistory(t *rapid.T, queries string) History {
 	phase := rapid.SampledFrom([]int{0, 0, 0, 3}).Draw(t, "phase0")
 	hx, hy := rapid.IntRange(0, grid).Draw(t, "hotx"), rapid.IntRange(0, grid).Draw(t, "hoty")
 	hotWide := rapid.Bool().Draw(t, "hotwide")
+	h.Float = rapid.IntRange(0, 2).Draw(t, "float") == 1
 	for i := 0; i < n; i++ {
 		stay := 24
 		if phase == 3 {
@@ -116,6 +121,17 @@ func GenHistory(t *rapid.T, queries string) History {
 				op.Kn = rapid.IntRange(1, 12).Draw(t, "k")
 			}
 		}
+		if h.Float && (op.K == "ins" || op.K == "search" || op.K == "nn" || op.K == "knn") {
+			for j := range op.F {
+				op.F[j] = rapid.Float64Range(0, 1).Draw(t, "frac")
+			}
+			if op.Box[2] == 0 && rapid.Bool().Draw(t, "thinw") {
+				op.F[2] = 0 // zero-width boxes stay zero-width
+			}
+			if op.Box[3] == 0 && rapid.Bool().Draw(t, "thinh") {
+				op.F[3] = 0
+			}
+		}
 		h.Ops = append(h.Ops, op)
 	}
 	return h
@@ -133,9 +149,9 @@ func NewModel(h History) *Model {
 	return &Model{Tree: rtree.NewTree(h.Min, h.Max), Kind: h.Kind}
 }
 
-func (m *Model) mk(b [4]int) geom.Geom {
-	x0, y0 := float64(b[0]), float64(b[1])
-	x1, y1 := x0+float64(b[2]), y0+float64(b[3])
+func (m *Model) mk(b [4]int, f [4]float64) geom.Geom {
+	x0, y0 := float64(b[0])+f[0], float64(b[1])+f[1]
+	x1, y1 := x0+float64(b[2])+f[2], y0+float64(b[3])+f[3]
 	m.next++
 	switch m.Kind {
 	case "point":
@@ -290,7 +306,7 @@ func (m *Model) Step(op Op, ev *Events, check bool) string {
 	t := m.Tree
 	switch op.K {
 	case "ins":
-		o := m.mk(op.Box)
+		o := m.mk(op.Box, op.F)
 		t.Insert(o)
 		m.Live = append(m.Live, o)
 		if ev.Drained {
